@@ -753,6 +753,15 @@ def worker(task: Tuple[int, int, str, int], col: common.Collector) -> None:
     r = common.rng(shard, "c07")
     cases = [c for i, c in enumerate(c07gen.systematic(common.seed())) if i % nshards == shard]
     cases += list(c07gen.randomized(common.rng(shard, "c07-random"), nrandom))
+    with_siblings: List[Dict[str, Any]] = []
+    for n, c in enumerate(cases):
+        with_siblings.append(c)
+        if n % 3 == 1:
+            sib = c07gen.sibling(c, (n // 3) % 2)
+            if sib is not None:
+                with_siblings.append(sib)   # adjacent: same batch, same process
+                col.count("sibling-methods")
+    cases = with_siblings
     for n, c in enumerate(cases):
         c["id"] = f"{shard}.{n}"
         c["dop_level"] = c["itype"] in refcompu.INT_TYPES and n % 3 == 0 and \
